@@ -12,6 +12,7 @@ from typing import Mapping
 from typing import TextIO
 
 from .context import RenderContext
+from .exceptions import ContextDepthError
 from .exceptions import LiquidError
 from .exceptions import LiquidInterrupt
 from .exceptions import LiquidSyntaxError
@@ -85,7 +86,10 @@ class Template:
             self,
             global_data=self.make_globals(dict(*args, **kwargs)),
         )
-        self.render_with_context(context, buf)
+        try:
+            self.render_with_context(context, buf)
+        except RecursionError as err:
+            raise _stack_exhausted(self) from err
         return buf.getvalue()
 
     async def render_async(self, *args: Any, **kwargs: Any) -> str:
@@ -98,7 +102,10 @@ class Template:
             self,
             global_data=self.make_globals(dict(*args, **kwargs)),
         )
-        await self.render_with_context_async(context, buf)
+        try:
+            await self.render_with_context_async(context, buf)
+        except RecursionError as err:
+            raise _stack_exhausted(self) from err
         return buf.getvalue()
 
     def render_with_context(
@@ -470,3 +477,17 @@ class Template:
     async def tag_names_async(self, *, include_partials: bool = True) -> list[str]:
         """Return a list of tag names used in this template."""
         return list((await self.analyze_async(include_partials=include_partials)).tags)
+
+
+def _stack_exhausted(template: Template) -> ContextDepthError:
+    """Python's recursion limit was reached before `context_depth_limit`.
+
+    Every level of include, render, extends or macro recursion costs a number of
+    interpreter frames that grows with the tags it is nested in, so the depth of
+    the interpreter's stack can be the smaller of the two bounds.
+    """
+    return ContextDepthError(
+        "maximum context depth reached, the interpreter's stack is exhausted",
+        token=None,
+        template_name=template.full_name(),
+    )
